@@ -143,7 +143,11 @@ def _run(ctx: Ctx) -> None:
             case, exp = cj["case"], cj["exp"]
             sig = case["sig"]
             code = A.sig_code(sig)
-            for path in PATHS:
+            paths = PATHS
+            if len(sig) >= 3 and not exp["invoke"]:
+                # the many rejected 3-parameter cases: each on one socket and one HTTP path, alternating kinds
+                paths = (["sock_unary", "http_stream"] if ci % 2 else ["sock_stream", "http_unary"]) + ["sock_shm"]
+            for path in paths:
                 stream = path.endswith("stream")
                 meth = ("s_" if stream else "c_" if path.endswith("ctx") else "u_") + code
                 if meth not in server.methods or (path == "sock_shm" and (not sig or (len(sig) >= 3 and ci % 2))):
